@@ -403,3 +403,41 @@ for _n in (2, 3):
         dynamic_types={"self": {"ir_builder": ty.TObj("IRBuilder", only=("IRBuilder",)), "parent": ty.TOpaque("parent"), "diagnostics": ty.TOpaque("diag")}},
         properties=("C11", "C01"), min_obligations=1, no_replay=True, note=f"{_n} sources (bounded list length)"))
 CONTRACTS += [get_op, const_ctor]
+
+# =================================================================================================
+# ConstantPropagationOptimizer._get_const_value: the integer the optimizer folds with is the value the operand has at
+# run time: the literal itself, a scalar constant's value, or — for a reference into a bundle constant — the value of
+# the member the reference selects (None when the member is absent or the producer is not a constant).
+# =================================================================================================
+CP_ = "dsl_compiler/src/ir/optimizer.py::ConstantPropagationOptimizer."
+_BCONST = ty.TObj("IRConst", only=("IRConst",), ftypes=(("value", ty.Int), ("signals", ty.TDict(ty.Str, ty.Int))))
+
+
+def _gcv_post(a, res):
+    v = a.value
+    if not isinstance(v, _SObj):
+        return ops.eq(res, v) if res is not None else False
+    # follow the replacement chain: out of this clause's reach (assumed empty here)
+    looked = [r for (_k, r) in a.const_map.lookups if r is not None]
+    tests = a.const_map.tests
+    if not looked:
+        return res is None
+    c = looked[-1]
+    nonempty = z3.Exists([z3.String("some_member")], z3.Select(c.signals.present, z3.String("some_member")))
+    member_present = z3.Select(c.signals.present, v.signal_type)
+    member_val = z3.Select(c.signals.vals, v.signal_type)
+    if res is None:
+        return And(nonempty, Not(member_present))
+    return z3.If(nonempty, And(member_present, res == member_val), res == c.value)
+
+
+get_const_value = Contract(
+    qualname=CP_ + "_get_const_value",
+    params={"self": ty.TObj("ConstantPropagationOptimizer", only=("ConstantPropagationOptimizer",)), "value": ty.TUnion((ty.Int, ty.TObj("SignalRef", only=("SignalRef",)))),
+            "const_map": ty.TObjMap(ty.Str, _BCONST)},
+    requires=[("no pending replacement for this reference", lambda a: True)],
+    ensures=[("a scalar constant's value, or the selected member of a bundle constant", _gcv_post)],
+    dynamic_types={"self": {"replacements": ty.TConcrete({})}},
+    returns=ty.TOpt(ty.Int), properties=("C11", "C10", "C02"), min_obligations=3, no_replay=True,
+)
+CONTRACTS.append(get_const_value)
